@@ -1,0 +1,80 @@
+//go:build verif
+
+package network
+
+import (
+	"crypto/tls"
+	"crypto/x509"
+	"encoding/asn1"
+	"net"
+
+	"go.dedis.ch/kyber/v3"
+)
+
+// Read-only accessors for the C08 correspondence harness of /verif (TLS links
+// only between peers that proved the keys they claim). Nothing here changes
+// behaviour; the file is compiled only with -tags verif.
+
+// VerifC08Verifier is the prototype of tls.Config.VerifyPeerCertificate.
+type VerifC08Verifier func(rawCerts [][]byte, vrf [][]*x509.Certificate) error
+
+// VerifC08MakeVerifier returns the real peer-certificate verifier of tls.go
+// together with the nonce it has drawn. them == nil is the listening side.
+func VerifC08MakeVerifier(suite Suite, them *ServerIdentity) (VerifC08Verifier, []byte) {
+	v, n := makeVerifier(suite, them)
+	return VerifC08Verifier(v), n
+}
+
+// VerifC08PubToCN is the new-style common-name encoding of a public key.
+func VerifC08PubToCN(pub kyber.Point) string { return pubToCN(pub) }
+
+// VerifC08PubFromCN decodes a common name (old or new style).
+func VerifC08PubFromCN(suite kyber.Group, cn string) (kyber.Point, error) {
+	return pubFromCN(suite, cn)
+}
+
+// VerifC08SigOID is the object identifier of the certificate extension that
+// carries the signature by the server key.
+func VerifC08SigOID() asn1.ObjectIdentifier {
+	return append(asn1.ObjectIdentifier{}, oidDedisSig...)
+}
+
+// VerifC08NonceSize is the size of the per-handshake nonce.
+const VerifC08NonceSize = nonceSize
+
+// VerifC08MkNonce draws a nonce the way both sides do.
+func VerifC08MkNonce(s Suite) []byte { return mkNonce(s) }
+
+// VerifC08ReceiveServerIdentity runs the router's identity check on a
+// connection.
+func (r *Router) VerifC08ReceiveServerIdentity(c Conn) (*ServerIdentity, error) {
+	return r.receiveServerIdentity(c)
+}
+
+// VerifC08WrapConn frames an established net.Conn (e.g. a *tls.Conn built by
+// the harness) the way onet frames its TCP connections, so that a deviating
+// peer can speak the wire protocol after its own handshake.
+func VerifC08WrapConn(c net.Conn, s Suite) *TCPConn {
+	return &TCPConn{conn: c, suite: s}
+}
+
+// VerifC08HonestCertificate returns the certificate an honest server holding
+// si's private key presents when the peer's nonce is nonce (certMaker.get).
+func VerifC08HonestCertificate(s Suite, si *ServerIdentity, nonce []byte) (*tls.Certificate, error) {
+	cm, err := newCertMaker(s, si)
+	if err != nil {
+		return nil, err
+	}
+	return cm.get(nonce)
+}
+
+// VerifC08ConnCount returns the number of connections the router has
+// registered for the given identity.
+func (r *Router) VerifC08ConnCount(id ServerIdentityID) int {
+	r.Lock()
+	defer r.Unlock()
+	return len(r.connections[id])
+}
+
+// VerifC08Address returns the address the router's listener is bound to.
+func (r *Router) VerifC08Address() Address { return r.address }
